@@ -194,6 +194,10 @@ def run(chk, prog):
     reb = [t for c, t in arms if is_t(t, "call") and (evk.closure_of(t[1]) is not None or is_call(t, "eval_jaxpr_iterate_cps")) and dict(t[3]).get("rebind", C(True)) == C(True)]
     okh2 = len(handle) == 1 and handle[0][2][0] in konts and len(reb) >= 1
     chk.require(okh2, "CPS-CONT", "eval_jaxpr_iterate_cps/record", "first visit records through handle(kont, *args); re-bound visits just continue", derived=f"{len(handle)} handle arm(s), {len(reb)} rebind arm(s)", expected="cps_prim.handle(_kont, *args) / _kont(cps_prim(*args))", where=where)
+    from ..interp import reader_consts_ok
+    okrc, where_t = reader_consts_ok(("tuple", tuple(t for c, t in arms)))
+    chk.require(bool(okrc), "ISP-CONSTS", "eval_jaxpr_iterate_cps/operands", "record-point operands: drop the PREPENDED constants", derived=show(where_t)[:240] if where_t else "no tree_unflatten(in_tree, ...) found",
+                expected="tree_unflatten(params['in_tree'], args[params['num_consts']:])", where=where)
     final = [t for c, t in arms if is_t(t, "tuple") and len(t[1]) == 2 and t[1][1] == C(None)]
     okf = len(final) == 1 and is_call(final[0][1][0], "tree_unflatten") and is_call(final[0][1][0][2][1], "safe_map") and final[0][1][0][2][1][2][1] == ("attr", P("jaxpr"), "outvars")
     chk.require(okf, "INTERP-SKELETON", "eval_jaxpr_iterate_cps/outputs", "final value read from jaxpr.outvars; no further frame", derived=show(final[0])[:200] if final else "none", expected="(tree_unflatten(out_tree(), safe_map(env.read, jaxpr.outvars)), None)", where=where)
